@@ -138,11 +138,15 @@ def block_cases(tier):
     for (o, c) in TAGPAIRS:
         for bname, body, kind in BODIES:
             for blank in (False, True):
-                sep = "\n\n" if blank else "\n"
-                src = f"Intro paragraph.\n\n{o}{sep}{body}{sep}{c}\n\nOutro paragraph.\n"
-                for w in ((20, 88) if tier == "quick" else (10, 20, 40, 88)):
-                    for sem in (False, True):
-                        cases.append((o, c, bname, kind, src, dict(width=w, semantic=sem, cleanups=False)))
+                # trailing invisible whitespace on the tag lines (space, tab) and CRLF line ends must not matter
+                for trail, eol in (("", "\n"), (" ", "\n"), ("\t", "\n"), ("", "\r\n")):
+                    sep = eol * 2 if blank else eol
+                    src = f"Intro paragraph.{eol}{eol}{o}{trail}{sep}{body.replace(chr(10), eol)}{sep}{c}{trail}{eol}{eol}Outro paragraph.{eol}"
+                    for w in ((20, 88) if tier == "quick" else (10, 20, 40, 88)):
+                        for sem in (False, True):
+                            if tier == "quick" and trail + eol != "\n" and (w, sem) != (88, False):
+                                continue
+                            cases.append((o, c, bname, kind, src, dict(width=w, semantic=sem, cleanups=False)))
     return cases
 
 
